@@ -3,7 +3,7 @@
 (* cache (see /verif/known_findings.json).                                               *)
 EXTENDS PageCache, TLC
 
-KnownIds == {"C17-KF8"}
+KnownIds == {}
 
 (* C17-KF3: LruPageCache::read copies from a page only when the WHOLE part requested from  *)
 (* that page exists.  A read whose range extends beyond end-of-file therefore loses the    *)
